@@ -181,7 +181,7 @@ def natural_image(calls, w):
 LOG = []  # per add_segment call of the last run_case: (call index, accepted?, the calls accepted before it, the call)
 
 
-def run_case(calls, w, version, path, preset=None):
+def run_case(calls, w, version, path, preset=None, rewrites=0):
     """drive the real Writer then Reader. a call rejected with FlipJumpWriteFjmException is SKIPPED and the
     sequence goes on (a rejected call must leave the writer unchanged).
     returns (outcome, detail, reader_or_None, accepted_calls)."""
@@ -214,6 +214,8 @@ def run_case(calls, w, version, path, preset=None):
         if not any(c[0] == 'seg' for c in accepted):
             return 'rejected', detail, None, accepted
         wr.write_to_file()
+        for _ in range(rewrites):
+            wr.write_to_file()   # writing the same writer again gives the same file (the writer's state is not consumed by a write)
     except FlipJumpWriteFjmException as e:
         return 'rejected', str(e)[:80], None, accepted
     except Exception as e:  # noqa
@@ -275,21 +277,21 @@ def compare_loaded(r, calls, w):
     return problems
 
 
-def check_sequence(specs, w, path, sieve, stats, presets=(None,)):
+def check_sequence(specs, w, path, sieve, stats, presets=(None,), rewrites=0):
     from fjv.ref import fjm as R2
     calls = materialize(specs, w)
     images = {}
     logs = {}
     for version in (0, 1, 2, 3):
         for preset in (presets if version == 3 else (None,)):
-            outcome, detail, r, accepted = run_case(calls, w, version, path, preset)
+            outcome, detail, r, accepted = run_case(calls, w, version, path, preset, rewrites)
             logs[(version, preset)] = list(LOG)
             why = classify(accepted if outcome not in ('rejected', 'raw-exception') else calls, w, version)
             if outcome == 'loaded' and len(accepted) < len(calls):
                 stats['continued_after_a_rejected_call'] = stats.get('continued_after_a_rejected_call', 0) + 1
             stats['runs'] += 1
             stats[outcome] = stats.get(outcome, 0) + 1
-            case = {'w': w, 'version': version, 'preset': preset, 'calls': calls, 'spec': [list(map(str, s)) for s in specs]}
+            case = {'w': w, 'version': version, 'preset': preset, 'calls': calls, 'spec': [list(map(str, s)) for s in specs], 'rewrites': rewrites}
 
             def bad(kind, expected, observed):
                 sieve.add({'kind': kind, 'class': f'{kind} | {why} | {detail.split(":")[0][:40] if outcome != "loaded" else ""} | v{version}', 'case': case, 'expected': expected, 'observed': observed, 'r2_reason': why, 'outcome': outcome,
@@ -357,6 +359,8 @@ def work(task):
         stats['sequences'] += 1
         before = stats['valid_loaded']
         calls = check_sequence(specs, w, path, sieve, stats, presets)
+        if fam == 'pair':
+            check_sequence(specs, w, path, sieve, stats, presets, rewrites=1 + i % 2)   # the file written twice / three times by one writer
         if stats['valid_loaded'] > before:
             valid_keys.add(repr(calls))
             if sample is None and len(specs) > 1:
